@@ -109,6 +109,24 @@ Proof.
     subst s0; cbn in *. lia.
 Qed.
 
+(* since repo fix 5a35404 every file with planned edits is read before any file is changed: a planned file that is missing, not a
+   regular file or not valid UTF-8 fails the apply without a single operation, whatever else the plan holds *)
+Theorem unreadable_file_changes_nothing inj p t f :
+  first_conflict t (ap_renames p) = None ->
+  first_unreadable t (edits_by_file (ap_hunks p)) = Some f ->
+  r_ok (apply_core inj p t) = false /\ r_fail (apply_core inj p t) = Some (FailRead f) /\
+  r_fs (apply_core inj p t) = t /\ r_trace (apply_core inj p t) = [].
+Proof. intros FC FU. unfold apply_core. rewrite FC, FU. repeat split. Qed.
+
+(* and first_unreadable finds such a file whenever there is one *)
+Lemma first_unreadable_some t files f es :
+  In (f, es) files -> readable t f = false -> exists g, first_unreadable t files = Some g.
+Proof.
+  intros I U. unfold first_unreadable.
+  destruct (find (fun fe => negb (readable t (fst fe))) files) as [fe|] eqn:E; [eexists; reflexivity|].
+  exfalso. apply (find_none _ _ E) in I. cbn [fst] in I. rewrite U in I. discriminate.
+Qed.
+
 (* success and failure are reported consistently *)
 Theorem ok_iff_no_failure inj p t :
   r_ok (apply_core inj p t) = true <-> r_fail (apply_core inj p t) = None.
